@@ -4,15 +4,34 @@ from gen_tables import generator, HEADER
 import py2lean
 
 
-def _emit(out, name, params, build):
+def _emit(out, name, params, build, typ='Int'):
     try:
         body = build()
-        out.append('def %s %s : Int :=\n  %s\n' % (name, params, body))
+        out.append('def %s %s : %s :=\n  %s\n' % (name, params, typ, body))
         out.append('def %s_supported : Bool := true\n' % name)
-    except py2lean.Unsupported as e:
-        out.append('-- %s: the current source left the supported subset (%s)' % (name, e))
-        out.append('def %s %s : Int := 0\n' % (name, params))
+    except (py2lean.Unsupported, SyntaxError, OSError, TypeError) as e:
+        out.append('-- %s: the current source left the supported subset (%s)' % (name, str(e).replace('\n', ' ')))
+        out.append('def %s %s : %s := %s\n' % (name, params, typ, 'false' if typ == 'Bool' else '0'))
         out.append('def %s_supported : Bool := false\n' % name)
+
+
+def _body(fn_obj, first=None):
+    """Statements of a function (docstring dropped); `first(stmt)` selects where the translated part starts."""
+    fn = py2lean.function_ast(getattr(fn_obj, 'fget', None) or getattr(fn_obj, '__func__', None) or fn_obj)
+    body = fn.body
+    if first is not None:
+        for i, st in enumerate(body):
+            if first(st):
+                return body[i:]
+        raise py2lean.Unsupported('start of the translated part not found')
+    return body
+
+
+def _whole(fn_obj, mk_tr, first=None, fall='0'):
+    """Builder translating the whole body of a function / property with a fresh Tr."""
+    def build():
+        return mk_tr().stmts(_body(fn_obj, first), fall)
+    return build
 
 
 @generator('Translated')
@@ -20,7 +39,7 @@ def gen_translated():
     from pcbasic.basic.values import randomiser, numbers
     import importlib
     protect = importlib.import_module('pcbasic.basic.converter.protect')
-    out = [HEADER, 'import PcbV.PyInt\n', '/-! Mechanically translated from the current source by gen/py2lean.py (Python ints = `Int`;',
+    out = [HEADER, 'import PcbV.PyInt\n', 'set_option linter.unusedVariables false\n', '/-! Mechanically translated from the current source by gen/py2lean.py (Python ints = `Int`;',
            '    `//` = Int.fdiv, `%` = Int.fmod, `^` = Int.xor). -/', 'namespace PcbV.Gen.Translated\n']
     R = randomiser.Randomiser
     consts = {'self._multiplier': R._multiplier, 'self._increment': R._increment, 'self._period': R._period,
@@ -93,5 +112,108 @@ def gen_translated():
         return build
     _emit(out, 'idivCore', '(a b : Int)', int_tail(numbers.Integer.idiv_int, 'dividend'))
     _emit(out, 'imodCore', '(a b : Int)', int_tail(numbers.Integer.imod, 'dividend'))
+
+    # ---------------------------------------------------------------------------------------------
+    # numbers.Integer: byte-level negate / add / greater-than  (C02)
+    # the buffers are parameters: a0, a1 = low, high byte of self; b0, b1 = low, high byte of rhs;
+    # `self._buffer[:] = bytearray([lo, hi])` is the result lo + 256*hi; `raise OVERFLOW` is -OVERFLOW
+    from pcbasic.basic.base import error as _error
+    bufs = {'bytearray(self._buffer)[0]': 'a0', 'bytearray(self._buffer)[1]': 'a1',
+            'bytearray(self._buffer)[-1]': 'a1', 'bytearray(rhs._buffer)[0]': 'b0',
+            'bytearray(rhs._buffer)[1]': 'b1', 'bytearray(rhs._buffer)[-1]': 'b1'}
+    ovf = {'raise error.BASICError(error.OVERFLOW)': '(%d : Int)' % -_error.OVERFLOW}
+
+    def store_hook(tr, st, rest, result):
+        if (isinstance(st, ast.Assign) and ast.unparse(st.targets[0]) == 'self._buffer[:]'
+                and isinstance(st.value, ast.Call) and ast.unparse(st.value.func) == 'bytearray'
+                and len(st.value.args) == 1 and isinstance(st.value.args[0], ast.List)
+                and len(st.value.args[0].elts) == 2
+                and len(rest) == 1 and isinstance(rest[0], ast.Return) and ast.unparse(rest[0].value) == 'self'):
+            lo, hi = st.value.args[0].elts
+            return '(%s + ((256 : Int) * %s))' % (tr.expr(lo), tr.expr(hi))
+        return None
+    int_tr = lambda **kw: (lambda: py2lean.Tr({}, calls=bufs, raises=ovf, hooks=[store_hook],
+                                             bools={"self._buffer == b'\\x00\\x80'":
+                                                    '((decide (a0 = (0 : Int))) && (decide (a1 = (128 : Int))))'}, **kw))
+    _emit(out, 'inegCore', '(a0 a1 : Int)', _whole(numbers.Integer.ineg, int_tr()))
+    _emit(out, 'iaddCore', '(a0 a1 b0 b1 : Int)', _whole(numbers.Integer.iadd, int_tr()))
+    _emit(out, 'igtCore', '(a0 a1 b0 b1 : Int)',
+          _whole(numbers.Integer.gt, int_tr(ret_bool=True),
+                 first=lambda st: isinstance(st, ast.Assign) and 'isinstance' not in ast.unparse(st), fall='false'),
+          typ='Bool')
+
+    # ---------------------------------------------------------------------------------------------
+    # inputs/keyboard.py KeyboardBuffer: ring arithmetic  (C37)
+    # parameters: buflen = len(self._buffer), start = self._start, ring = self._ring_length
+    from pcbasic.basic.inputs import keyboard
+    KB = keyboard.KeyboardBuffer
+    kbc = {'self._ring_length': 'ring', 'self._start': 'start',
+           'self.length': '(kbLength buflen start ring)'}
+    kb_tr = lambda: py2lean.Tr(dict(kbc), calls={'len(self._buffer)': 'buflen'})
+    _emit(out, 'kbRingIndex', '(buflen ring index : Int)', _whole(KB._ring_index, kb_tr))
+    _emit(out, 'kbLength', '(buflen start ring : Int)', _whole(KB.length, kb_tr))
+    _emit(out, 'kbStart', '(start ring : Int)', _whole(KB.start, kb_tr))
+    _emit(out, 'kbStop', '(buflen start ring : Int)', _whole(KB.stop, kb_tr))
+
+    def kb_full():
+        # the "ring is full" test of append(): the condition of the inner `if`, without the check_full flag
+        fn = py2lean.function_ast(KB.append)
+        for node in ast.walk(fn):
+            if isinstance(node, ast.If) and isinstance(node.test, ast.BoolOp) and isinstance(node.test.op, ast.And) \
+                    and len(node.test.values) == 2 and ast.unparse(node.test.values[0]) == 'self._check_full':
+                return kb_tr().cond(node.test.values[1])
+        raise py2lean.Unsupported('full test of append not found')
+    _emit(out, 'kbFull', '(buflen start ring : Int)', kb_full, typ='Bool')
+
+    # ---------------------------------------------------------------------------------------------
+    # display/framebuffer.py: address -> (page, x, y) of the graphics memory mappers, and _coord_ok  (C34)
+    from pcbasic.basic.display import framebuffer
+    fbc = {'self._video_segment': 'segment', 'self._page_size': 'pageSize', 'self._bank_size': 'bankSize',
+           'self._bytes_per_row': 'bytesPerRow', 'self._bitsperpixel': 'bpp',
+           'self._interleave_times': 'interleave', 'self.num_pages': 'numPages',
+           'self._pixel_width': 'width', 'self._pixel_height': 'height'}
+    for cls, nm, params in ((framebuffer.CGAMemoryMapper, 'cga', '(addr segment pageSize bankSize bytesPerRow bpp interleave : Int)'),
+                            (framebuffer.EGAMemoryMapper, 'ega', '(addr segment pageSize bytesPerRow : Int)'),
+                            (framebuffer.Tandy6MemoryMapper, 'tandy6', '(addr segment pageSize bankSize bytesPerRow : Int)')):
+        for k, comp in enumerate(('Page', 'X', 'Y')):
+            _emit(out, '%sCoords%s' % (nm, comp), params,
+                  _whole(cls._get_coords, (lambda k=k: py2lean.Tr(dict(fbc), component=k))))
+    _emit(out, 'coordOk', '(page x y numPages width height : Int)',
+          _whole(framebuffer.GraphicsMemoryMapper._coord_ok, lambda: py2lean.Tr(dict(fbc), ret_bool=True), fall='false'),
+          typ='Bool')
+
+    # ---------------------------------------------------------------------------------------------
+    # display/graphics.py GraphicsViewPort: bounds, containment, midpoint, cutoff  (C30)
+    # parameters: absolute = self._absolute, (r0, r1, r2, r3) = self._rect, maxW/maxH = self._max_width/height
+    from pcbasic.basic.display import graphics
+    VP = graphics.GraphicsViewPort
+    R4 = 'r0 r1 r2 r3'
+    vpc = {'self._rect': ['r0', 'r1', 'r2', 'r3'], 'self._max_width': 'maxW', 'self._max_height': 'maxH',
+           'self.width': '(vpWidth %s)' % R4, 'self.height': '(vpHeight %s)' % R4}
+    vpcalls = {'self.get_bounds()': ['(vpBounds%d absolute %s)' % (k, R4) for k in range(4)],
+               'self._convert_coords(x, y)': ['(vpConvert%d absolute %s x y)' % (k, R4) for k in range(2)]}
+    vp_tr = lambda **kw: (lambda: py2lean.Tr(dict(vpc), calls=dict(vpcalls), bools={'self._absolute': 'absolute'}, **kw))
+    _emit(out, 'vpWidth', '(%s : Int)' % R4, _whole(VP.width, vp_tr()))
+    _emit(out, 'vpHeight', '(%s : Int)' % R4, _whole(VP.height, vp_tr()))
+    for k in range(4):
+        _emit(out, 'vpBounds%d' % k, '(absolute : Bool) (%s : Int)' % R4, _whole(VP.get_bounds, vp_tr(component=k)))
+    for k in range(2):
+        _emit(out, 'vpConvert%d' % k, '(absolute : Bool) (%s x y : Int)' % R4,
+              _whole(VP._convert_coords, vp_tr(component=k)))
+    _emit(out, 'vpContains', '(absolute : Bool) (%s x y : Int)' % R4,
+          _whole(VP.contains, vp_tr(ret_bool=True), fall='false'), typ='Bool')
+    for k in range(2):
+        _emit(out, 'vpMid%d' % k, '(absolute : Bool) (%s : Int)' % R4, _whole(VP.get_mid, vp_tr(component=k)))
+    for k in range(2):
+        _emit(out, 'vpCutoff%d' % k, '(absolute : Bool) (%s maxW maxH x y : Int)' % R4,
+              _whole(VP.cutoff_coord, vp_tr(component=k)))
+
+    # ---------------------------------------------------------------------------------------------
+    # memory/scalars.py, memory/arrays.py: record sizes  (C11)
+    # parameters: nameLen = len(name), ndims = len(dimensions)
+    from pcbasic.basic.memory import scalars, arrays
+    rs_tr = lambda: py2lean.Tr({}, calls={'len(name)': 'nameLen', 'len(dimensions)': 'ndims'})
+    _emit(out, 'scalarRecordSize', '(nameLen : Int)', _whole(scalars.Scalars._record_size, rs_tr))
+    _emit(out, 'arrayRecordSize', '(nameLen ndims : Int)', _whole(arrays.Arrays._record_size, rs_tr))
     out.append('end PcbV.Gen.Translated\n')
     return '\n'.join(out)
